@@ -130,7 +130,7 @@ def check(R, F):
         for bl in fn_.blocks:
             for st in bl['stmts']:
                 if st['k'] == 'assign':
-                    for pl in [st['lhs']] + [x for x in [st['rv'].get('pl'), (st['rv'].get('op') or {}).get('pl')] if x]:
+                    for pl in [st['lhs']] + [x for x in [st['rv'].get('pl'), (st['rv'].get('op') if isinstance(st['rv'].get('op'), dict) else {}).get('pl')] if x]:
                         for p in pl['p']:
                             if isinstance(p, dict) and p.get('n') in ('wire_repr', 'label_offsets'):
                                 tys[p['n']] = p['ty']
